@@ -165,6 +165,8 @@ class C07(Prop):
             return recv.as_node(name=op["name"])
         if t == "addNode":
             return recv.add_nodes(objs[op["j"]])
+        if t == "addNone":
+            return recv.add_nodes()
         if t == "withName":
             return recv.with_name(op["name"])
         if t == "withInputs":
@@ -179,7 +181,7 @@ class C07(Prop):
         try:
             if isinstance(recv, Graph):
                 spec = recv.inputs
-                choice = rng.choice(["bind", "bind", "unbind", "select", "withEntrypoint", "asNode", "readInputs", "readHash", "addNode"])
+                choice = rng.choice(["bind", "bind", "unbind", "select", "withEntrypoint", "asNode", "readInputs", "readHash", "addNode", "addNode", "addNone"])
                 if choice == "bind":
                     cands = list(spec.required) + list(spec.optional)
                     if not cands:
@@ -208,6 +210,8 @@ class C07(Prop):
                 if choice == "readHash":
                     _ = recv.definition_hash
                     return {"t": "readHash", "i": i}, recv
+                if choice == "addNone":
+                    return {"t": "addNone", "i": i}, recv.add_nodes()       # the degenerate call: still a derivation, still a new object
                 # add an existing node object (any node created so far whose name and outputs are new to this graph)
                 cands = [k for k, o in enumerate(objs) if not isinstance(o, Graph) and o.name not in recv.nodes
                          and not (set(o.outputs) & set(recv.outputs))]
